@@ -57,6 +57,18 @@ def run_body(test, case):
         return Outcome("inconclusive", kind="harness_timeout", detail=f"case exceeded {CASE_TIMEOUT_S}s")
     except MemoryError:
         return Outcome("inconclusive", kind="harness_memory", detail="case exceeded the memory limit")
+    except (Reject, StaleReplay):
+        raise
+    except Exception as e:
+        # An exception that escaped the body: if it passed through autograd code it is autograd's behaviour on a generated
+        # case (a failure, or an allowed "missing rule" signal); anything else is a harness bug and propagates (exit 2).
+        from .case import describe_exc, exc_bucket, from_autograd
+
+        if type(e).__module__.startswith("hypothesis") or not from_autograd(e):
+            raise
+        if isinstance(e, NotImplementedError) and "not defined" in str(e) and ("VJP of" in str(e) or "JVP of" in str(e)):
+            return Outcome("raised", kind=exc_bucket(e), detail=str(e)[:200])
+        return Outcome("fail", kind="unexpected_exception", detail="uncaught: " + describe_exc(e), bucket=f"{test.name}|uncaught_exception")
     finally:
         signal.alarm(0)
         signal.signal(signal.SIGALRM, old)
